@@ -67,6 +67,9 @@ def verify_contract(reg: Registry, c: Contract, cfg: Config) -> FunctionReport:
     rep.trusted = c.trusted
     t0 = time.time()
     short = c.target.partition(":")[2]
+    if getattr(c, "variant", None):
+        short = f"{short}#{c.variant}"
+        rep.target = f"{c.target}#{c.variant}"
     try:
         mod, node, _, _ = extract.find_def(c.target)
         rep.sha = mod.sha(node)
